@@ -70,22 +70,117 @@ let tcp_value args =
 let tcp_bytes (bs : bytes) =
   match from_slice bs with
   | Err _ ->
-    let (r, _) = tcp_dec read bs in
+    let r = match read bs with Ok _ -> "ok" | Err _ -> "err" in
     Printf.sprintf "err rd=%s | -" r
   | Ok (h, rest) ->
     let used = List.length bs - List.length rest in
     let re = to_bytes h in
     let enc = match re with Some b -> b | None -> [] in
-    let (d2, _) = tcp_dec from_slice enc in
+    let (d2, _) = tcp_dec from_slice (enc @ rest) in
     let (r, _) = tcp_dec read bs in
     let keep = keep_mask (header_len h) in
     Printf.sprintf "ok used=%d v=%s re=%s w=%s ws=- hl=%s d2=%s rd=%s | %s" used (tcp_canon h) (hexo re)
       (hexo (write [] h)) (s_of_n (header_len h)) d2 r (hex_of_bytes keep)
 
+
+(* ---------------------------------------------------------------- IPv4 *)
+let ip4_canon (h : ipv4Header) : string =
+  Printf.sprintf "%s,%s,%s,%s,%s,%s,%s,%s,%s,%s,%s,%s,%s" (s_of_n h.i4_dscp) (s_of_n h.i4_ecn)
+    (s_of_n h.i4_total_len) (s_of_n h.i4_identification) (b01 h.i4_dont_fragment)
+    (b01 h.i4_more_fragments) (s_of_n h.i4_fragment_offset) (s_of_n h.i4_time_to_live)
+    (s_of_n h.i4_protocol) (s_of_n h.i4_header_checksum) (hex_of_bytes h.i4_source)
+    (hex_of_bytes h.i4_destination) (hexo (i4o_as_slice h.i4_options))
+
+let ip4_dec (f : bytes -> (ipv4Header * bytes) res) (bs : bytes) : string * ipv4Header option =
+  match f bs with
+  | Ok (h, rest) -> (ip4_canon h ^ "/" ^ ilen rest, Some h)
+  | Err _ -> ("err", None)
+
+let ip4_spec (h : ipv4Header) =
+  ipv4_layout h.i4_dscp h.i4_ecn h.i4_total_len h.i4_identification h.i4_dont_fragment
+    h.i4_more_fragments h.i4_fragment_offset h.i4_time_to_live h.i4_protocol h.i4_header_checksum
+    h.i4_source h.i4_destination (match i4o_as_slice h.i4_options with Some x -> x | None -> [])
+
+let ip4_value args =
+  match args with
+  | [dscp; ecn; tl; id; df; mf; fo; ttl; pr; ck; src; dst; opt; trail] ->
+    (match i4o_try_from (bytes_of_hex opt) with
+     | None -> "noval | -"
+     | Some o ->
+       let h = { i4_dscp = n_of_s dscp; i4_ecn = n_of_s ecn; i4_total_len = n_of_s tl;
+                 i4_identification = n_of_s id; i4_dont_fragment = (df = "1");
+                 i4_more_fragments = (mf = "1"); i4_fragment_offset = n_of_s fo;
+                 i4_time_to_live = n_of_s ttl; i4_protocol = n_of_s pr; i4_header_checksum = n_of_s ck;
+                 i4_source = bytes_of_hex src; i4_destination = bytes_of_hex dst; i4_options = o } in
+       if not (wf_ip4 h) then "noval | -" else
+       let tb = ip4_to_bytes h in
+       let w = ip4_write_raw [] h in
+       let enc = match tb with Some b -> b | None -> [] in
+       let input = enc @ bytes_of_hex trail in
+       let (d, dh) = ip4_dec ip4_from_slice input in
+       let (r, _) = ip4_dec ip4_read input in
+       let eq = match dh with Some x -> b01 (ip4_eqb x h) | None -> "-" in
+       Printf.sprintf "v=%s tb=%s w=%s ws=- hl=%s d=%s eq=%s rd=%s wc=%s | %s" (ip4_canon h) (hexo tb) (hexo w)
+         (s_of_n (ip4_header_len h)) d eq r (hexo (ip4_write LE [] h)) (hex_of_bytes (ip4_spec h)))
+  | _ -> failwith "ipv4 value args"
+
+let ip4_bytes (bs : bytes) =
+  match ip4_from_slice bs with
+  | Err _ ->
+    let r = match ip4_read bs with Ok _ -> "ok" | Err _ -> "err" in
+    Printf.sprintf "err rd=%s | -" r
+  | Ok (h, rest) ->
+    let used = List.length bs - List.length rest in
+    let re = ip4_to_bytes h in
+    let enc = match re with Some b -> b | None -> [] in
+    let (d2, _) = ip4_dec ip4_from_slice (enc @ rest) in
+    let (r, _) = ip4_dec ip4_read bs in
+    let keep = ip4_keep_mask (ip4_header_len h) in
+    Printf.sprintf "ok used=%d v=%s re=%s w=%s ws=- hl=%s d2=%s rd=%s wc=%s | %s" used (ip4_canon h) (hexo re)
+      (hexo (ip4_write_raw [] h)) (s_of_n (ip4_header_len h)) d2 r (hexo (ip4_write LE [] h)) (hex_of_bytes keep)
+
+
+(* ---------------------------------------------------------------- IPv6 fragment header *)
+let frag_canon (h : ipv6FragmentHeader) : string =
+  Printf.sprintf "%s,%s,%s,%s" (s_of_n h.fr_next_header) (s_of_n h.fr_fragment_offset)
+    (b01 h.fr_more_fragments) (s_of_n h.fr_identification)
+let frag_dec (f : bytes -> (ipv6FragmentHeader * bytes) res) (bs : bytes) : string =
+  match f bs with
+  | Ok (h, rest) -> frag_canon h ^ "/" ^ ilen rest
+  | Err _ -> "err"
+let frag_value args =
+  match args with
+  | [nh; fo; mf; id; trail] ->
+    let h = { fr_next_header = n_of_s nh; fr_fragment_offset = n_of_s fo; fr_more_fragments = (mf = "1");
+              fr_identification = n_of_s id } in
+    if not (wf_frag h) then "noval | -" else
+    let tb = frag_to_bytes h in
+    let input = tb @ bytes_of_hex trail in
+    let d = frag_dec frag_from_slice input in
+    Printf.sprintf "v=%s tb=%s w=%s ws=- hl=%s d=%s eq=%s rd=%s | %s" (frag_canon h) (hex_of_bytes tb)
+      (hex_of_bytes (frag_write [] h)) (s_of_n (frag_header_len h)) d
+      (if d = frag_canon h ^ "/" ^ ilen (bytes_of_hex trail) then "1" else "0")
+      (frag_dec frag_read input)
+      (hex_of_bytes (frag_layout h.fr_next_header h.fr_fragment_offset h.fr_more_fragments h.fr_identification))
+  | _ -> failwith "frag value args"
+let frag_bytes (bs : bytes) =
+  match frag_from_slice bs with
+  | Err _ -> Printf.sprintf "err rd=%s | -" (match frag_read bs with Ok _ -> "ok" | Err _ -> "err")
+  | Ok (h, rest) ->
+    let used = List.length bs - List.length rest in
+    let re = frag_to_bytes h in
+    Printf.sprintf "ok used=%d v=%s re=%s w=%s ws=- hl=%s d2=%s rd=%s | %s" used (frag_canon h) (hex_of_bytes re)
+      (hex_of_bytes (frag_write [] h)) (s_of_n (frag_header_len h)) (frag_dec frag_from_slice (re @ rest))
+      (frag_dec frag_read bs) (hex_of_bytes frag_keep_mask)
+
 let run (line : string) : string =
   match Conv.split_ws line with
   | "v" :: "tcp" :: args -> tcp_value args
   | ["b"; "tcp"; h] -> tcp_bytes (bytes_of_hex h)
+  | "v" :: "ipv4" :: args -> ip4_value args
+  | ["b"; "ipv4"; h] -> ip4_bytes (bytes_of_hex h)
+  | "v" :: "frag" :: args -> frag_value args
+  | ["b"; "frag"; h] -> frag_bytes (bytes_of_hex h)
   | ("v" | "b") :: _ :: _ -> "NOMODEL | -"
   | _ -> failwith ("bad c08 case: " ^ line)
 
